@@ -12,7 +12,10 @@ from harness.gen import registry as R
 ID = 'C11'
 MODULE = 'EmsModel.Props.C11'
 DRIVER = 'C11'
+# theorems about what harness/trans_registrysrc.py reads from the source of the registry
+EXTRA_MODULES = ['EmsModel.Props.C11Src']
 REQUIRED = [
+    'Ems.C11.conventions_generated', 'Ems.C11.match_generated', 'Ems.C11.guess_generated', 'Ems.C11.detection_generated',
     'Ems.C11.conventions_spec', 'Ems.C11.guess_spec', 'Ems.C11.guess_none_iff', 'Ems.C11.guess_error_iff',
     'Ems.C11.manual_wins_ties', 'Ems.C11.shoc_over_cf', 'Ems.C11.ugrid_needs_marker_and_mesh2d',
     'Ems.C11.guess_pure', 'Ems.C11.bound_stable', 'Ems.C11.rebind_refused', 'Ems.C11.copies_independent',
